@@ -34,9 +34,12 @@ class _TC(unittest.TestCase):
 
 
 def la_tree(la):
+    """Children sorted by position: the helper lists them in emission order (checked
+    separately), the parser by level; with hand-offs whose work is logged after later
+    siblings the two orders differ although the trees are the same."""
     if isinstance(la, LoggedMessage):
         return ("m", tuple(la.message["task_level"]))
-    return ("a", tuple(la.startMessage["task_level"]), tuple(la.endMessage["task_level"]), tuple(la_tree(c) for c in la.children))
+    return ("a", tuple(la.startMessage["task_level"]), tuple(la.endMessage["task_level"]), tuple(sorted((la_tree(c) for c in la.children), key=lambda t: t[1])))
 
 
 def wa_tree(node):
@@ -97,14 +100,27 @@ def body_E1(ctx):
             order = [pos[id(c.message if isinstance(c, LoggedMessage) else c.startMessage)] for c in la.children]
             ctx.check(order == sorted(order), "children of %s at %r are not in emission order", ty, level)
             desc = [tuple((d.message if isinstance(d, LoggedMessage) else d.startMessage)["task_level"]) for d in la.descendants()]
-            ctx.check(desc == preorder(t2), "descendants() gives %r, pre-order of the parser's tree is %r", desc, preorder(t2))
+
+            def pre_emission(node):
+                out = []
+                for c in node.children:
+                    out.append(tuple((c.message if isinstance(c, LoggedMessage) else c.startMessage)["task_level"]))
+                    if isinstance(c, LoggedAction):
+                        out.extend(pre_emission(c))
+                return out
+
+            ctx.check(desc == pre_emission(la), "descendants() gives %r, pre-order of the helper's own tree is %r", desc, pre_emission(la))
+            ctx.check(sorted(desc) == sorted(preorder(t2)), "descendants() %r and the parser's nodes %r differ", desc, preorder(t2))
+            if not sh.get("deferred"):
+                ctx.check(desc == preorder(t2), "descendants() gives %r, pre-order of the parser's tree is %r", desc, preorder(t2))
 
             def tt(node):
                 if not isinstance(node, WrittenAction):
                     return node.contents["message_type"]
                 return {node.action_type: [tt(c) for c in node.children]}
 
-            ctx.check(la.type_tree() == tt(wa), "type_tree() %r differs from the parser's tree %r", la.type_tree(), tt(wa))
+            if not sh.get("deferred"):
+                ctx.check(la.type_tree() == tt(wa), "type_tree() %r differs from the parser's tree %r", la.type_tree(), tt(wa))
         # assertHasAction: succeeds iff the FIRST entry matches
         first = found[0]
         tc = _TC()
@@ -206,7 +222,7 @@ def L1(A: List[int], L: List[int]) -> bool:
 
 def _shards(tier):
     out = []
-    cfgs = [{"N": 4, "D": 3, "handoff": 1}, {"N": 3, "D": 3, "types": 2, "handoff": 0}] if tier == "quick" else [{"N": 5, "D": 4, "handoff": 1}, {"N": 4, "D": 3, "types": 2, "handoff": 1}]
+    cfgs = [{"N": 4, "D": 3, "handoff": 1}, {"N": 3, "D": 3, "types": 2, "handoff": 0}, {"N": 3, "D": 3, "handoff": 1, "deferred": 1, "same_side": 1}] if tier == "quick" else [{"N": 5, "D": 4, "handoff": 1}, {"N": 4, "D": 3, "types": 2, "handoff": 1}, {"N": 4, "D": 3, "handoff": 1, "deferred": 1, "same_side": 1}]
     for base in cfgs:
         out += [dict(base, prefix=q) for q in enumerate_prefixes(body_E1, "X", {}, base, 3)]
     return out
@@ -223,7 +239,7 @@ OBLIGATIONS = [
         shards=_shards,
         twin=[{"N": 4, "D": 3, "handoff": 1, "twin_label": "repeated-types"}],
         timeout={"quick": 100, "thorough": 1200},
-        bounds={"quick": "programs <= 4 ops (one action type: every action shares it; raise/hand-off included), and <= 3 ops with 2 solver-chosen types; depth <= 3; 4 expectation kinds for assertHasAction", "thorough": "<= 5 ops depth <= 4; <= 4 ops with 2 types"},
+        bounds={"quick": "programs <= 4 ops (one action type: every action shares it; raise/hand-off included), and <= 3 ops with 2 solver-chosen types; <= 3 ops with deferred hand-offs (sub-task logged after its parent ended); depth <= 3; 4 expectation kinds for assertHasAction", "thorough": "<= 5 ops depth <= 4; <= 4 ops with 2 types"},
     ),
     Ob(
         "L1",
